@@ -11,6 +11,9 @@ pub enum Policy {
     Uniform,
     PollEager,
     PollLazy,
+    /// whatever is outstanding completes before the next poll (sequential
+    /// consumption: `while let Some(f) = stream.next().await { .. drop(f) }`)
+    ExternalFirst,
 }
 
 #[derive(Clone, Copy, Debug, PartialEq, Eq)]
@@ -170,6 +173,7 @@ impl RunSched {
                     self.pick_external(v, &ext)
                 }
             }
+            Policy::ExternalFirst => self.pick_external(v, &ext),
             Policy::PollLazy => {
                 let stay = if self.p.multi_drop { 13 } else { 11 };
                 if !v.woken || self.rng.chance(stay, 16) {
